@@ -2,7 +2,10 @@
 # usage: seed_run.sh <id> <prop> [<prop>...]  - applies /verif/seeded/<id>/patch.diff to /repo, runs the quick checks, undoes it; prints which checks raise a VIOLATION
 id=$1; shift
 cd /repo && git status --short | grep -q . && { echo "/repo is not clean"; exit 2; }
-git apply /verif/seeded/$id/patch.diff 2>/dev/null || git apply --3way /verif/seeded/$id/patch.diff 2>/dev/null || patch -p1 -s < /verif/seeded/$id/patch.diff || { echo "patch does not apply to /repo HEAD"; git checkout -- .; exit 2; }
+# apply only if a dry run succeeds (a failed 3-way merge or patch would leave /repo dirty)
+if git apply --check /verif/seeded/$id/patch.diff 2>/dev/null; then git apply /verif/seeded/$id/patch.diff
+elif patch -p1 -s --dry-run < /verif/seeded/$id/patch.diff >/dev/null 2>&1; then patch -p1 -s < /verif/seeded/$id/patch.diff; find . -name '*.orig' -not -path './target/*' -delete
+else echo "patch does not apply to /repo HEAD (the seed was made against an earlier commit: see meta.json / RESULTS.md)"; exit 2; fi
 cd /verif
 res=""
 for p in "$@"; do
